@@ -4,6 +4,7 @@ import os
 import posixpath
 import random
 import re
+import shlex
 import shutil
 import subprocess
 import sys
@@ -16,15 +17,26 @@ RULE = ('projects are random DAGs of 1..7 libraries plus 1..2 executables create
         'static, shared, dual-use or library() without kind (decided by the --enable/--disable-shared/static mode), '
         'placed in one of 9 nested output directories; its libs= argument is a random subset of earlier libraries in '
         'random listing order (sometimes listed twice, sometimes wrapped in whole_archive()), with random link options '
-        '(strings and option objects) and packages; every link step of every project is one case; a case is '
-        'non-trivial when a library is forwarded (some listed library is static) and distinct by the project text. '
-        'System level: the same generator (strings only, no packages) written out as a real C project, configured '
-        'with the real bfg9000, built with GNU make and gcc, run from another cwd, build directory moved, run again.')
+        '(groups of string tokens: multi-token options such as -u SYM, -Xlinker --defsym -Xlinker N=V, -z KW whose '
+        'tokens repeat across libraries and inside one option, single-token options, and option objects) and packages '
+        '(whose link options contain a multi-token option too); every link step of every project is one case; a case '
+        'is non-trivial when a library is forwarded (some listed library is static) and distinct by the project text. '
+        'System level: the same generator written out as a real C project whose libraries carry link options with an '
+        'observable effect (-u SYM / -Xlinker -u -Xlinker SYM / -Wl,-u,SYM pulling an otherwise unreferenced plugin '
+        'object out of the archive, -Xlinker --defsym -Xlinker N=V / -Wl,--defsym=N=V defining an absolute symbol the '
+        'library code reads, -pthread, a local pkg-config package whose Libs: carry both kinds, options given on the '
+        'executable itself incl. -u of a plugin the library does not forward), configured with the real bfg9000, '
+        'built with GNU make and gcc, run from another cwd, build directory moved, run again; the printed sum counts '
+        'every plugin and every defsym value.')
 TRUSTED = ('R model ld_pass (single-pass archive semantics of GNU ld) validated against the real gcc/ld on this run',
            'R model ldso_dir ($ORIGIN substitution and lexical dot-dot resolution of the dynamic loader; no symlinked '
            'directories in the build tree) validated by running the built executables before and after moving the build '
            'directory',
-           'GNU ld / ld.so themselves (oracles)')
+           'GNU ld / ld.so themselves (oracles)',
+           'system-level forwarded options: GNU ld semantics of -u SYM (extracts the archive member defining SYM; a weak '
+           'reference alone does not) and --defsym N=V (absolute symbol, read through a data relocation), observed '
+           'through the program output; the mopack stand-in that makes package() resolve a local .pc file through the '
+           'real pkg-config (mopack itself is not installable here)')
 EXPLANATION = ('partial: the forwarding closure, link order and relative rpath computation are proved on the model and '
                'tied to the code; ld and ld.so are oracles validated by really linking and running generated projects; '
                'non-ELF formats are not covered')
@@ -35,25 +47,54 @@ FINDING_WHOLE_PLAIN = 'whole-archive-after-plain-archive-of-same-library'
 DIRS = ['', 'lib', 'lib/sub', 'a/b/c', 'bin', 'x.y', 'lib2', 'a/b', 'a/z']
 KINDS = ['static', 'shared', 'dual', 'default']
 # W-tie option pools (never given to a real linker)
-STR_POOL = ['-pthread', '-g', '-Wl,-O1', '-s', '-Wl,--as-needed']
+STR_POOL = ['-pthread', '-g', '-Wl,-O1', '-s', '-Wl,--as-needed',
+            # tokens of multi-token options
+            '-u', 'reg_a', 'reg_b', '-Xlinker', '--defsym', 'x=1', 'y=2', '-Wl,--defsym=a=1', '-z', 'now']
+# what a build script passes as link_options: options, each a group of one or more tokens (every token is
+# one element of the option_list = one argv word)
+W_GROUPS = [['-u', 'reg_a'], ['-u', 'reg_b'], ['-Xlinker', '--defsym', '-Xlinker', 'x=1'],
+            ['-Xlinker', '--defsym', '-Xlinker', 'y=2'], ['-Xlinker', '-u', '-Xlinker', 'reg_a'], ['-z', 'now'],
+            ['-pthread'], ['-Wl,--defsym=a=1'], ['-g'], ['-Wl,-O1'], ['-s'], ['-Wl,--as-needed']]
 N_OBJ = 3     # opts.pthread(), opts.debug(), opts.static()
+OBJ_FLAG = ['-pthread', '-g', '-static']      # what CcLinker.flags makes of them
 N_PKG = 4
+# string ids on the wire: STR_POOL index | 50 + p: -Lpk<p> | 60 + p: pksym<p> | 1000 + k: k-th literal of the project
+
+
+def pkg_strings(p):
+    """the string part of the link options of W-stage package p (after its lib option): one single-token and one
+    two-token option"""
+    return ['-Lpk%d' % p, '-u', 'pksym%d' % p]
 
 
 # ----------------------------------------------------------------------------- project generator
 class Node:
-    __slots__ = ('kind', 'deps', 'lopts', 'pkgs', 'dir', 'uses', 'exe')
+    """lopts: list of (tag, id): (0, k) STR_POOL[k]; (1, k) option object k; (3, text) a literal token.
+    feat (system-level projects only): what the link options of this node mean for its C sources, see make_feat."""
+    __slots__ = ('kind', 'deps', 'lopts', 'pkgs', 'dir', 'uses', 'exe', 'feat')
 
-    def __init__(self, kind, deps, lopts, pkgs, dir, uses, exe):
+    def __init__(self, kind, deps, lopts, pkgs, dir, uses, exe, feat=None):
         self.kind, self.deps, self.lopts, self.pkgs, self.dir, self.uses, self.exe = kind, deps, lopts, pkgs, dir, uses, exe
+        self.feat = feat or {}
 
     def to_json(self):
-        return {k: getattr(self, k) for k in self.__slots__}
+        d = {k: getattr(self, k) for k in self.__slots__ if k != 'feat'}
+        if self.feat:
+            d['feat'] = self.feat
+        return d
 
     @staticmethod
     def from_json(d):
         return Node(d['kind'], [tuple(x) for x in d['deps']], [tuple(x) for x in d['lopts']], d['pkgs'], d['dir'],
-                    d['uses'], d['exe'])
+                    d['uses'], d['exe'], d.get('feat'))
+
+    def opt_texts(self):
+        """the link options as written in the build script: text for a string token, None for an option object"""
+        return [STR_POOL[k] if t == 0 else (k if t == 3 else None) for t, k in self.lopts]
+
+    def system_ok(self):
+        """can be written out as a real project (no W-stage packages, strings only)"""
+        return not self.pkgs and all(t in (0, 3) for t, _ in self.lopts)
 
 
 class Project:
@@ -77,13 +118,50 @@ class Project:
     def has_static(self, i):
         return self.eff_kind(i) in ('static', 'dual')
 
+    def strtab(self):
+        """the literal tokens of the project that are not in STR_POOL, in order of first occurrence"""
+        tab = []
+        for n in self.nodes:
+            for t, k in n.lopts:
+                if t == 3 and k not in STR_POOL and k not in tab:
+                    tab.append(k)
+        return tab
+
+    def str_id(self, text):
+        try:
+            return self._str_id(text)
+        except ValueError:
+            return 999999          # a string no script of the project contains
+
+    def _str_id(self, text):
+        if text in STR_POOL:
+            return STR_POOL.index(text)
+        m = re.match(r'-Lpk(\d+)$', text)
+        if m:
+            return 50 + int(m.group(1))
+        m = re.match(r'pksym(\d+)$', text)
+        if m:
+            return 60 + int(m.group(1))
+        return 1000 + self.strtab().index(text)
+
+    def str_text(self, i):
+        if i >= 1000:
+            return self.strtab()[i - 1000]
+        if i >= 60:
+            return 'pksym%d' % (i - 60)
+        if i >= 50:
+            return '-Lpk%d' % (i - 50)
+        return STR_POOL[i]
+
     def wire(self):
         """The sx value the model takes (see GraphLinkTable.v)."""
         nodes = []
         for n in self.nodes:
-            nodes.append([KINDS.index(n.kind), [[j, bool(w)] for j, w in n.deps], [[t, i] for t, i in n.lopts],
+            nodes.append([KINDS.index(n.kind), [[j, bool(w)] for j, w in n.deps],
+                          [[0, self.str_id(i)] if t == 3 else [t, i] for t, i in n.lopts],
                           list(n.pkgs), [c for c in n.dir.split('/') if c], list(n.uses)])
-        pkgopts = [[p, [[1, 100 + p], [0, 50 + p]]] for p in range(N_PKG)]
+        # a package's link options: its lib option (encoded as option object 100 + p), then strings
+        pkgopts = [[p, [[1, 100 + p]] + [[0, self.str_id(t)] for t in pkg_strings(p)]] for p in range(N_PKG)]
         return [bool(self.mode[0]), bool(self.mode[1]), nodes, pkgopts]
 
     def text(self):
@@ -119,6 +197,74 @@ class Project:
             todo.extend(self.edges(x))
         return sorted(seen)
 
+    def forward_visits(self, user):
+        """the forwarding libraries in the order (and as often as) a depth-first walk along forwarded edges meets
+        them: once per path"""
+        res = []
+        for x in user:
+            if x % 3 != 0:
+                res.append(x)
+                res.extend(self.forward_visits(self.edges(x)))
+        return res
+
+    def depth_of(self, user):
+        """{library: length of the shortest forwarding path from the link step}"""
+        depth, level, d = {}, list(user), 1
+        while level:
+            nxt = []
+            for x in level:
+                if x not in depth:
+                    depth[x] = d
+                    nxt.extend(self.edges(x))
+            level, d = nxt, d + 1
+        return depth
+
+
+def make_feat(i, exe, spec, pkg=None):
+    """The link options of node i of a system-level project and what they mean for its C sources.
+    spec: list of (form, number)
+      'u'   ['-u', P]                              P: a plugin function returning <number>; it is an object file of
+      'xu'  ['-Xlinker', '-u', '-Xlinker', P]         its own in the library and the library code references it only
+      'wu'  ['-Wl,-u,P']                              weakly, so only the option pulls it out of the archive
+      'x'   ['-Xlinker', '--defsym', '-Xlinker', 'D=<number>']    D: an absolute symbol; the code of the node adds
+      'w'   ['-Wl,--defsym=D=<number>']                              its value (0 when undefined: weak)
+      'pthread' ['-pthread']
+    pkg: (value, weight) - the node uses the package c14pk<i>, a local .pc file whose Libs: line defines a symbol
+         (single token) and pulls in a plugin of the node (two tokens).
+    Returns (lopts, feat); feat['groups'] are the options as token groups, in the order of lopts."""
+    feat = {'plugs': [], 'xplugs': [], 'defs': [], 'force': [], 'groups': []}
+    for c, (form, num) in enumerate(spec):
+        if form in ('u', 'xu', 'wu'):
+            name = 'pg%d_%d' % (i, c)
+            feat['plugs'].append([name, num])
+            g = {'u': ['-u', name], 'xu': ['-Xlinker', '-u', '-Xlinker', name], 'wu': ['-Wl,-u,' + name]}[form]
+        elif form in ('x', 'w'):
+            name = 'dv%d_%d' % (i, c)
+            feat['defs'].append([name, num])
+            g = ['-Xlinker', '--defsym', '-Xlinker', '%s=%d' % (name, num)] if form == 'x' else \
+                ['-Wl,--defsym=%s=%d' % (name, num)]
+        else:
+            g = ['-pthread']
+        feat['groups'].append(g)
+    if pkg:
+        feat['pkg'] = {'name': 'c14pk%d' % i, 'def': ['pkv%d' % i, pkg[0]], 'plug': ['pkp%d' % i, pkg[1]]}
+    return [(3, t) for g in feat['groups'] for t in g], feat
+
+
+def add_forced_plugin(libnode, j, i, lopts, feat, weight, xform):
+    """executable i asks for a plugin of its static library j that the library does not forward itself"""
+    name = 'xp%d_%d' % (j, i)
+    libnode.feat.setdefault('xplugs', []).append([name, weight])
+    g = ['-Xlinker', '-u', '-Xlinker', name] if xform else ['-u', name]
+    feat['force'].append(name)
+    feat['groups'].append(g)
+    lopts.extend((3, t) for t in g)
+
+
+def pkg_libs_tokens(pk):
+    """the Libs: line of the local package of a system-level project, as tokens"""
+    return ['-Wl,--defsym=%s=%d' % tuple(pk['def']), '-u', pk['plug'][0]]
+
 
 def gen_project(rng, rep=None, system=False, max_libs=7):
     nlibs = rng.randint(1, max_libs)
@@ -153,17 +299,42 @@ def gen_project(rng, rep=None, system=False, max_libs=7):
                 else:
                     w = rng.random() < 0.2
             deps.append((j, w))
+        feat = None
         if system:
-            lopts = [(0, 0)] if rng.random() < 0.3 else []
+            spec = []
+            if rng.random() < 0.75:
+                forms = ['x', 'x', 'w', 'pthread'] if exe else ['u', 'u', 'u', 'xu', 'wu', 'x', 'x', 'w', 'pthread']
+                spec = [(rng.choice(forms), rng.randint(1, 99)) for _ in range(rng.choice([1, 2, 2, 3]))]
+            pkg = (rng.randint(1, 99), rng.randint(1, 99)) if rng.random() < 0.2 else None
+            lopts, feat = make_feat(i, exe, spec, pkg)
+            if exe:
+                # -u given on the executable itself for a plugin that its library does not forward: only for a
+                # static library whose code lives in executables only (in a shared library the weak reference
+                # would be bound at load time, making the expected output depend on symbol export details)
+                in_shared = set()
+                for m, nd in enumerate(nodes):
+                    if not nd.exe and proj.eff_kind(m) in ('shared', 'dual'):
+                        in_shared.update(proj.reachable(proj.user_libs(m, False)))
+                cands = [j for j, w in deps if not w and proj.eff_kind(j) == 'static' and not whole_ok.get(j) and
+                         3 * j + 1 not in in_shared and 3 * j + 2 not in in_shared]
+                if cands and rng.random() < 0.6:
+                    j = rng.choice(cands)
+                    add_forced_plugin(nodes[j], j, i, lopts, feat, rng.randint(1, 99), rng.random() < 0.5)
             pkgs = []
         else:
             lopts = []
             for _ in range(rng.choice([0, 0, 1, 2, 3])):
-                lopts.append((0, rng.randrange(len(STR_POOL))) if rng.random() < 0.6 else (1, rng.randrange(N_OBJ)))
+                if rng.random() < 0.7:
+                    g = rng.choice(W_GROUPS)
+                    lopts.extend((0, STR_POOL.index(t)) for t in g)
+                    if rep is not None:
+                        rep.count('link-option:%d-token' % len(g))
+                else:
+                    lopts.append((1, rng.randrange(N_OBJ)))
             pkgs = [rng.randrange(N_PKG) for _ in range(rng.choice([0, 0, 0, 1, 2]))]
         dset = sorted(set(j for j, _ in deps))
         uses = [j for j in dset if exe or rng.random() < 0.75]
-        nodes.append(Node(kind, deps, lopts, pkgs, rng.choice(DIRS), uses, exe))
+        nodes.append(Node(kind, deps, lopts, pkgs, rng.choice(DIRS), uses, exe, feat))
     p = Project(mode, nodes)
     if rep is not None:
         rep.count('mode:shared=%d,static=%d' % mode)
@@ -174,6 +345,24 @@ def gen_project(rng, rep=None, system=False, max_libs=7):
                 rep.count('links-with-whole-archive')
         rep.count('libs:%d' % nlibs)
     return p
+
+
+def string_runs(texts):
+    """maximal runs of string tokens in a link_options list (None marks an option object)"""
+    runs, cur = [], []
+    for t in list(texts) + [None]:
+        if t is None:
+            if cur:
+                runs.append(cur)
+            cur = []
+        else:
+            cur.append(t)
+    return runs
+
+
+def has_block(hay, run):
+    k = len(run)
+    return any(hay[i:i + k] == run for i in range(len(hay) - k + 1))
 
 
 def plain_before_whole(line):
@@ -212,9 +401,52 @@ CORPUS = [
 ]
 
 
+def _sysnode(i, kind, deps, dir, uses, exe=False, spec=(), pkg=None):
+    lopts, feat = make_feat(i, exe, list(spec), pkg)
+    return Node(kind, deps, lopts, [], dir, uses, exe, feat)
+
+
+def system_corpus():
+    """system-level corner cases for forwarded link options and packages (built by make_feat so that options
+    and sources agree)"""
+    res = []
+    # two plugin archives, each forwarding -u SYM, below a static host (depth 2), plus a shared library elsewhere
+    res.append(Project((True, False), [
+        _sysnode(0, 'static', [], 'lib/sub', []),
+        _sysnode(1, 'static', [(0, False)], 'a/b', [0], spec=[('u', 10)]),
+        _sysnode(2, 'static', [(0, False)], 'a/z', [0], spec=[('u', 20)]),
+        _sysnode(3, 'static', [(1, False), (2, False), (0, False)], 'lib', [0, 1, 2]),
+        _sysnode(4, 'shared', [], 'lib2', []),
+        _sysnode(5, 'shared', [(3, False), (4, False)], 'bin', [3, 4], exe=True)]))
+    # -Xlinker --defsym -Xlinker N=V twice in one library, the library at the bottom of a diamond (depth 2, two
+    # paths), another one in a sibling, and the same kind of option on the executable itself
+    res.append(Project((False, True), [
+        _sysnode(0, 'static', [], '', [], spec=[('x', 5), ('x', 7), ('u', 1)]),
+        _sysnode(1, 'static', [(0, False)], 'a/b', [0]),
+        _sysnode(2, 'default', [(0, False)], 'lib', [0], spec=[('x', 9), ('w', 3), ('xu', 2)]),
+        _sysnode(3, 'shared', [(1, False), (2, False)], 'bin', [1, 2], exe=True, spec=[('x', 11), ('pthread', 0), ('w', 4)])]))
+    # depth 3 chain into a shared library and into an executable; forwarded package at depth 2 and own package
+    res.append(Project((True, True), [
+        _sysnode(0, 'static', [], 'x.y', [], spec=[('xu', 4), ('u', 6)], pkg=(11, 13)),
+        _sysnode(1, 'static', [(0, False)], 'a/b/c', [0], spec=[('wu', 8)]),
+        _sysnode(2, 'static', [(1, False)], 'lib', [1], spec=[('u', 3), ('x', 2)]),
+        _sysnode(3, 'shared', [(2, False)], 'lib2', [2], spec=[('u', 5)]),
+        _sysnode(4, 'shared', [(2, False)], 'bin', [2], exe=True, pkg=(17, 19)),
+        _sysnode(5, 'shared', [(3, False)], '', [3], exe=True, spec=[('x', 1)])]))
+    # a plugin that only the executable asks for (own -u next to the forwarded one); a second executable does not
+    nodes = [
+        _sysnode(0, 'static', [], 'lib', [], spec=[('u', 7)]),
+        _sysnode(1, 'static', [(0, False)], 'a/z', [0], spec=[('x', 3)]),
+        _sysnode(2, 'shared', [(1, False), (0, False)], 'bin', [0, 1], exe=True, spec=[('x', 2)]),
+        _sysnode(3, 'shared', [(0, False)], 'bin', [0], exe=True)]
+    add_forced_plugin(nodes[0], 0, 2, nodes[2].lopts, nodes[2].feat, 40, False)
+    res.append(Project((True, False), nodes))
+    return res
+
+
 def corpus_projects():
     """the inline corner cases plus every corpus/C14/*.json (minimised past disagreements)"""
-    res = [Project.from_json(c) for c in CORPUS]
+    res = [Project.from_json(c) for c in CORPUS] + system_corpus()
     seen = set(p.text() for p in res)
     d = os.path.join(common.VERIF, 'corpus', 'C14')
     for fn in sorted(os.listdir(d)) if os.path.isdir(d) else []:
@@ -269,7 +501,7 @@ class Real:
         build, ctx = make_context(env)
         fmt = env.target_platform.object_format
         self.pkgs = [CommonPackage('pkg%d' % p, format=fmt,
-                                   link_options=opts.option_list(opts.lib('pk%d' % p), '-Lpk%d' % p))
+                                   link_options=opts.option_list(opts.lib('pk%d' % p), *pkg_strings(p)))
                      for p in range(N_PKG)]
         oo = obj_options()
         self.objs = []
@@ -279,7 +511,7 @@ class Real:
             # whole_archive() takes a static library; of a dual-use library its static half
             libs = [ctx['whole_archive'](ctx['static_library'](self.objs[j]) if proj.eff_kind(j) == 'dual'
                                          else self.objs[j]) if w else self.objs[j] for j, w in n.deps]
-            lo = [STR_POOL[k] if t == 0 else oo[k] for t, k in n.lopts]
+            lo = [STR_POOL[k] if t == 0 else (k if t == 3 else oo[k]) for t, k in n.lopts]
             kw = {'libs': libs, 'link_options': lo, 'packages': [self.pkgs[p] for p in n.pkgs]}
             name = posixpath.join(n.dir, 'n%d' % i)
             src = ['n%d.c' % i]
@@ -306,10 +538,7 @@ class Real:
     def enc_opt(self, o):
         from bfg9000 import options as opts, file_types
         if isinstance(o, str):
-            if o in STR_POOL:
-                return (0, STR_POOL.index(o))
-            m = re.match(r'-Lpk(\d+)$', o)
-            return (0, 50 + int(m.group(1)))
+            return (0, self.proj.str_id(o))
         if isinstance(o, opts.lib):
             if isinstance(o.library, str):
                 return (1, 100 + int(o.library[2:]))
@@ -355,7 +584,7 @@ def detect_fixed():
 def dec(name, r):
     if name in ('link.recurse_libs', 'link.libs', 'link.final_libs', 'link.pkgs'):
         return d_opt(lambda x: list(x), r)
-    if name == 'link.final_opts':
+    if name in ('link.final_opts', 'link.opt_flags'):
         return d_opt(lambda x: [tuple(o) for o in x], r)
     if name == 'link.lib_flags':
         return [tuple(t) for t in r]
@@ -401,6 +630,8 @@ def impl_step_values(real, fixed, step):
         vals['lib_flags_raw'] = toks
         fl = [flag_text(f) for f in c.flags()]
         rp = [f for f in fl if f.startswith('-Wl,-rpath,')]
+        # the option part of the argv: everything CcLinker.flags emits before the rpath and soname flags
+        vals['link.opt_flags'] = [f for f in fl if not f.startswith(('-Wl,-rpath,', '-Wl,-rpath-link,', '-Wl,-soname,'))]
         vals['rpath_flag'] = rp[0][len('-Wl,-rpath,'):] if rp else None
         vals['n_rpath_flags'] = len(rp)
         vals['soname'] = [f for f in fl if f.startswith('-Wl,-soname,')]
@@ -425,6 +656,7 @@ def stage_w_links(rep, rng, fixed, projects):
             if not cs:
                 for name in ('link.final_opts', 'link.final_libs'):
                     calls.append((name, [w, fixed, n, cs])); impl.append(v[name]); meta.append((proj, n, cs))
+                calls.append(('link.opt_flags', [w, fixed, n])); impl.append(v['link.opt_flags']); meta.append((proj, n, cs))
                 # lib_flags: tokens over the final libs
                 exp = []
                 for t in v['lib_flags_raw']:
@@ -454,6 +686,11 @@ def stage_w_links(rep, rng, fixed, projects):
         mv = dec(name, r)
         if name == 'link.rpaths':
             mv = None if not mv else ':'.join(mv)
+        if name == 'link.opt_flags' and mv is not None:
+            # model tokens as text; the lib option of a package (encoded as option object >= 100) is no flag: it
+            # goes to lib_flags as -lNAME
+            pj = meta[i][0]
+            mv = [pj.str_text(k) if t == 0 else OBJ_FLAG[k] for t, k in mv if not (t == 1 and k >= 100)]
         if mv != iv:
             dis.append((i, (name, arg), iv, mv))
     n, ok, detail = common.vm_crosscheck(calls, raw, limit=60)
@@ -564,7 +801,8 @@ def oracle_project(rep, proj, fixed):
             if x % 3 == 0:
                 continue
             nd = proj.nodes[x // 3]
-            want = list(nd.lopts) + [q for p in nd.pkgs for q in ((1, 100 + p), (0, 50 + p))]
+            want = [(0, proj.str_id(i)) if t == 3 else (t, i) for t, i in nd.lopts] + \
+                   [q for p in nd.pkgs for q in [(1, 100 + p)] + [(0, proj.str_id(s)) for s in pkg_strings(p)]]
             for w in want:
                 if w not in enc:
                     bad += 1
@@ -572,6 +810,44 @@ def oracle_project(rep, proj, fixed):
                              {'project': proj.to_json(), 'node': n, 'kind': 'options'},
                              classes=classify(proj, fixed, 'options'))
         fl = [flag_text(f) for f in c.flags()]
+        # token level.  Every run of string tokens of the link options of a reachable forwarding library, of an own
+        # or forwarded package and of the link step itself is a contiguous block, tokens in order, of the final
+        # option list and of the flags handed to the linker (a multi-token option such as -u SYM must not be torn
+        # apart or lose a token that also occurs elsewhere)
+        ostr = [x if isinstance(x, str) else None for x in o]
+        own = proj.nodes[n]
+        sources = [('its own link options', own.opt_texts())] + \
+                  [('its package %d' % p, pkg_strings(p)) for p in own.pkgs]
+        for x in reach:
+            if x % 3 != 0:
+                nd = proj.nodes[x // 3]
+                sources.append(('library %d (forwarded)' % x, nd.opt_texts()))
+                sources.extend(('package %d forwarded by library %d' % (p, x), pkg_strings(p)) for p in nd.pkgs)
+        torn = [(who, run, where, hay) for who, texts in sources for run in string_runs(texts)
+                for where, hay in (('option list', ostr), ('linker flags', fl)) if not has_block(hay, run)]
+        if torn:
+            who, run, where, hay = torn[0]       # one report per link step
+            bad += 1
+            rep.fail('link of n%d: the tokens %r of %s are not a contiguous block of the final %s %r (%d such '
+                     'blocks in this step)' % (n, run, who, where, [h for h in hay if h is not None], len(torn)),
+                     {'project': proj.to_json(), 'node': n, 'kind': 'option-tokens', 'tokens': run,
+                      'from': who, where: hay}, classes=classify(proj, fixed, 'options'))
+        # the exact law on the unchanged code: option_list never de-duplicates strings - the string elements of the
+        # final option list are those of the packages (own, then forwarded in visit order), of every visit of
+        # ForwardOptions.recurse (once per path) and of the step itself, in this order with multiplicity
+        visits = proj.forward_visits(user)
+        exp = [s for p in list(own.pkgs) + [p for x in visits for p in proj.nodes[x // 3].pkgs] for s in pkg_strings(p)]
+        exp += [t for x in visits for t in proj.nodes[x // 3].opt_texts() if t is not None]
+        exp += [t for t in own.opt_texts() if t is not None]
+        got = [x for x in o if isinstance(x, str)]
+        if got != exp and not torn and not getattr(rep, 'c14_law', None):
+            # every option is still complete somewhere on the line: a different multiplicity or order, not a lost
+            # option - a broken obligation, not a failing input; reported by the driver when the run finds no
+            # failing input (like a broken correspondence)
+            rep.c14_law = ('link of n%d: the string options of the final option list are %r, the law (no '
+                           'de-duplication of strings, one copy per forwarding path) gives %r' % (n, got, exp),
+                           {'obligation': 'law:strings-kept-with-multiplicity', 'project': proj.to_json(), 'node': n,
+                            'got': got, 'expected': exp})
         rp = [f[len('-Wl,-rpath,'):] for f in fl if f.startswith('-Wl,-rpath,')]
         entries = rp[0].split(':') if rp else []
         outdir = proj.nodes[n].dir
@@ -603,30 +879,76 @@ def oracle_project(rep, proj, fixed):
 
 
 # ----------------------------------------------------------------------------- system level
-def value_of(proj, i, memo):
+def value_of(proj, i, memo, forced=()):
+    """what f<i>() returns / executable i prints: its own number, three times the sum of what it uses, every
+    plugin its link options (or its package) pull in, every defsym value, and the plugins in `forced` (those the
+    running executable asked for itself)"""
     if i not in memo:
-        memo[i] = (i + 1) + 3 * sum(value_of(proj, j, memo) for j in proj.nodes[i].uses)
+        n = proj.nodes[i]
+        ft = n.feat
+        v = (i + 1) + 3 * sum(value_of(proj, j, memo, forced) for j in n.uses)
+        v += sum(w for _, w in ft.get('plugs', []))
+        v += sum(w for name, w in ft.get('xplugs', []) if name in forced)
+        v += sum(val for _, val in ft.get('defs', []))
+        if ft.get('pkg'):
+            v += ft['pkg']['def'][1] + ft['pkg']['plug'][1]
+        memo[i] = v
     return memo[i]
+
+
+MOPACK_STUB = ('#!/bin/sh\n# stand-in for `mopack linkage --json NAME` (mopack is not installable here): resolve NAME\n'
+               '# through pkg-config in the directory of the local .pc files\nfor a; do n=$a; done\n'
+               'printf \'{"name": "%s", "type": "system", "pcnames": ["%s"], "pkg_config_path": ["%s"]}\\n\' '
+               '"$n" "$n" "$C14_PCDIR"\n')
 
 
 def write_project(proj, src):
     os.makedirs(src, exist_ok=True)
     lines = ['# generated by /verif harness/c14.py', "project('c14', '1.0')"]
     for i, n in enumerate(proj.nodes):
-        protos = ''.join('int f%d(void);\n' % j for j in n.uses)
-        calls = ' + '.join('f%d()' % j for j in n.uses) or '0'
+        ft = n.feat
+        pk = ft.get('pkg')
+        plugs = [(nm, w) for nm, w in ft.get('plugs', [])] + [(nm, w) for nm, w in ft.get('xplugs', [])]
+        defs = [nm for nm, _ in ft.get('defs', [])]
+        if pk:
+            plugs.append(tuple(pk['plug']))
+            defs.append(pk['def'][0])
+        protos = ''.join('long long f%d(void);\n' % j for j in n.uses)
+        # a plugin is referenced weakly: nothing but the link option pulls its object out of the archive
+        protos += ''.join('extern long long %s(void) __attribute__((weak));\n' % nm for nm, _ in plugs)
+        # the value of an absolute symbol, read through a data relocation (right in PIE, non-PIE and shared
+        # objects); 0 when nothing defines it
+        protos += ''.join('extern char %s[] __attribute__((weak));\nstatic char *volatile q_%s = %s;\n' % (nm, nm, nm)
+                          for nm in defs)
+        terms = ['3 * (%s)' % (' + '.join('f%d()' % j for j in n.uses) or '0')]
+        terms += ['(%s ? %s() : 0)' % (nm, nm) for nm, _ in plugs]
+        terms += ['(long long)(long)q_%s' % nm for nm in defs]
+        expr = '%d + %s' % (i + 1, ' + '.join(terms))
         with open(os.path.join(src, 'n%d.c' % i), 'w') as f:
             if n.exe:
-                f.write('#include <stdio.h>\n%sint main(void) { printf("%%d\\n", %d + 3 * (%s)); return 0; }\n' % (
-                    protos, i + 1, calls))
+                f.write('#include <stdio.h>\n%sint main(void) { printf("%%lld\\n", (long long)(%s)); return 0; }\n' % (
+                    protos, expr))
             else:
-                f.write('%sint f%d(void) { return %d + 3 * (%s); }\n' % (protos, i, i + 1, calls))
+                f.write('%slong long f%d(void) { return %s; }\n' % (protos, i, expr))
+        files = ['n%d.c' % i]
+        for nm, w in plugs:
+            files.append('n%d_%s.c' % (i, nm))
+            with open(os.path.join(src, files[-1]), 'w') as f:
+                f.write('long long %s(void) { return %d; }\n' % (nm, w))
         libs = ', '.join((('whole_archive(static_library(n%d))' if proj.eff_kind(j) == 'dual' else 'whole_archive(n%d)') % j)
                          if w else ('n%d' % j) for j, w in n.deps)
         name = posixpath.join(n.dir, 'n%d' % i)
-        args = "'%s', files=['n%d.c'], libs=[%s]" % (name, i, libs)
+        args = "'%s', files=%r, libs=[%s]" % (name, files, libs)
         if n.lopts:
-            args += ", link_options=['-pthread']"
+            # (0, k) of the older corpus entries was always written as -pthread
+            args += ", link_options=%r" % ['-pthread' if t == 0 else k for t, k in n.lopts]
+        if pk:
+            os.makedirs(os.path.join(src, 'pc'), exist_ok=True)
+            with open(os.path.join(src, 'pc', pk['name'] + '.pc'), 'w') as f:
+                f.write('Name: %s\nDescription: local package of node %d\nVersion: 1.0\nCflags: -DC14PK%d=1\n'
+                        'Libs: %s\n' % (pk['name'], i, i, ' '.join(pkg_libs_tokens(pk))))
+            lines.append("pk%d = package('%s')" % (i, pk['name']))
+            args += ", packages=[pk%d]" % i
         if n.exe:
             lines.append('n%d = executable(%s)' % (i, args))
         else:
@@ -672,6 +994,41 @@ def link_lines(make_n_output, proj):
     return res
 
 
+def link_argvs(make_n_output):
+    """{node: argv} for every dynamic link command printed by make -n (words as the shell splits them)"""
+    res = {}
+    for line in make_n_output.split('\n'):
+        m = re.search(r' -o (\S+)\s*$', line.strip())
+        if not m or ' -c ' in line:
+            continue
+        mt = re.search(r'(?:lib)?n(\d+)(\.so)?$', posixpath.basename(m.group(1).strip("'")))
+        if mt:
+            try:
+                res[int(mt.group(1))] = shlex.split(line)
+            except ValueError:
+                res[int(mt.group(1))] = line.split()
+    return res
+
+
+def option_groups(proj, n):
+    """[(who, tokens)]: every link option (as the group of tokens the script passes) that the dynamic link of node
+    n must carry: its own, those of its package, and those forwarded (with their packages) by every static or
+    whole-archive library in its closure - computed from the script alone"""
+    def of(nd, who):
+        res = [(who, g) for g in nd.feat.get('groups', [])]
+        if not nd.feat.get('groups'):
+            res = [(who, ['-pthread' if t == 0 else k]) for t, k in nd.lopts]
+        if nd.feat.get('pkg'):
+            res.append((who + ' (package %s)' % nd.feat['pkg']['name'], pkg_libs_tokens(nd.feat['pkg'])))
+        return res
+    res = of(proj.nodes[n], 'node n%d itself' % n)
+    depth = proj.depth_of(proj.user_libs(n, False))
+    for x in proj.reachable(proj.user_libs(n, False)):
+        if x % 3 != 0:
+            res.extend(of(proj.nodes[x // 3], 'library n%d forwarded at depth %d' % (x // 3, depth.get(x, 0))))
+    return res
+
+
 _AS_NEEDED = []
 
 
@@ -708,6 +1065,17 @@ def system_project(rep, proj, fixed, keep=False):
         write_project(proj, src)
         env = common.impl_env()
         env.pop('LD_LIBRARY_PATH', None)
+        if any(n.feat.get('pkg') for n in proj.nodes):
+            # package() asks mopack where the package is; the stub answers: pkg-config, in the project's pc/
+            tools = os.path.join(d, 'tools')
+            os.mkdir(tools)
+            with open(os.path.join(tools, 'mopack'), 'w') as f:
+                f.write(MOPACK_STUB)
+            os.chmod(os.path.join(tools, 'mopack'), 0o755)
+            env['PATH'] = tools + ':' + env['PATH']
+            env['C14_PCDIR'] = os.path.join(src, 'pc')
+            for k in ('PKG_CONFIG_PATH', 'PKG_CONFIG_LIBDIR', 'PKG_CONFIG'):
+                env.pop(k, None)
         cfg = [sys.executable, '-m', 'bfg9000.driver'] if False else ['bfg9000']
         cmd = cfg + ['configure', bld, '--backend=make', '--no-resolve-packages',
                      '--enable-shared' if proj.mode[0] else '--disable-shared',
@@ -720,6 +1088,26 @@ def system_project(rep, proj, fixed, keep=False):
             return 1, dis
         rc, out, err = sh(['make', '-n'], bld, env)
         lines = link_lines(out, proj)
+        # every link option of the script - own, forwarded, from packages - reaches the link command as a
+        # contiguous block of words, in order
+        argvs = link_argvs(out)
+        lost = []
+        for n, nd in enumerate(proj.nodes):
+            if not (nd.exe or proj.eff_kind(n) in ('shared', 'dual')):
+                continue
+            for who, g in option_groups(proj, n):
+                rep.count('sys:option-group:%d-token' % len(g))
+                if 'forwarded' in who:
+                    rep.count('sys:' + who[who.index('forwarded'):].split(' (')[0])
+                if not has_block(argvs.get(n, []), g):
+                    lost.append((n, who, g))
+        if lost:
+            n, who, g = lost[0]                  # one report per project
+            bad += 1
+            rep.fail('link command of n%d: the option %r of %s is not a contiguous block of its words: %r (%d such '
+                     'options in this project)' % (n, g, who, argvs.get(n), len(lost)),
+                     {'project': proj.to_json(), 'kind': 'build-option-tokens', 'node': n, 'option': g, 'from': who,
+                      'argv': argvs.get(n), 'all': lost[:20]}, classes=classify(proj, fixed, 'options'))
         # the link lines the real build uses == the model's final libs; and the ld model's verdict
         calls, meta = [], []
         w = proj.wire()
@@ -750,7 +1138,6 @@ def system_project(rep, proj, fixed, keep=False):
                      {'project': proj.to_json(), 'kind': kind, 'stderr': err[-3000:], 'link_lines': lines},
                      classes=classify(proj, fixed, kind))
             return 1, dis
-        memo = {}
         exes = [(i, n) for i, n in enumerate(proj.nodes) if n.exe]
 
         def run_all(root, phase):
@@ -761,7 +1148,7 @@ def system_project(rep, proj, fixed, keep=False):
                     rc, out, err = sh([p], '/', {'PATH': '/usr/bin:/bin'}, timeout=30)
                 except OSError as e:
                     rc, out, err = -1, '', str(e)
-                want = str(value_of(proj, i, memo))
+                want = str(value_of(proj, i, {}, tuple(n.feat.get('force', []))))
                 if rc != 0 or out.strip() != want:
                     bad += 1
                     rep.fail('executable n%d %s: exit %d, stdout %r (expected %s) %s' % (
@@ -780,14 +1167,23 @@ def system_project(rep, proj, fixed, keep=False):
             shutil.rmtree(d, ignore_errors=True)
 
 
-def stage_system(rep, rng, fixed, count):
-    projs = [p for p in corpus_projects() if all(not n.pkgs and all(t == 0 for t, _ in n.lopts) for n in p.nodes)][:count]
-    while len(projs) < count:
-        projs.append(gen_project(rng, None, system=True, max_libs=6))
+def stage_system(rep, rng, fixed, generated, ncorpus=None):
+    """every corpus project that can be written out (thorough; the quick tier takes the token-level ones and a
+    rotating sample of the others) plus the generated ones"""
+    projs = [p for p in corpus_projects() if all(n.system_ok() for n in p.nodes)]
+    if ncorpus is not None and len(projs) > ncorpus:
+        rich = [p for p in projs if any(n.feat for n in p.nodes)]
+        rest = [p for p in projs if not any(n.feat for n in p.nodes)]
+        projs = rich + rng.sample(rest, max(0, ncorpus - len(rich)))
+    projs += generated
     bad, dis = 0, []
     for p in projs:
         rep.case('sys:' + p.text(), True)
         rep.count('system-project')
+        for nd in p.nodes:
+            for k in ('plugs', 'xplugs', 'defs', 'force', 'pkg'):
+                if nd.feat.get(k):
+                    rep.count('sys:node-with-%s%s' % (k, ':exe' if nd.exe else ''))
         b, d = system_project(rep, p, fixed)
         bad += b
         dis.extend((p, x) for x in d)
@@ -912,7 +1308,10 @@ def run_check(rep, thorough):
                  {'project': CORPUS[0], 'kind': 'order', 'line': probe}, classes=())
         fixed = True
     nproj = 1000 if thorough else 60
-    projects = corpus_projects() + [gen_project(rng, rep) for _ in range(nproj)]
+    nsys = 110 if thorough else 8
+    # the projects of the system stage also go through the tie and the in-process oracle
+    sysprojs = [gen_project(rng, None, system=True, max_libs=6) for _ in range(nsys)]
+    projects = corpus_projects() + [gen_project(rng, rep) for _ in range(nproj)] + sysprojs
     dis = stage_w_links(rep, rng, fixed, projects)
     dis2 = stage_w_rpath(rep, rng, 600 if thorough else 120)
     stage_r_ld(rep, rng, 400 if thorough else 70)
@@ -929,7 +1328,9 @@ def run_check(rep, thorough):
         nfail += oracle_project(rep, p, fixed)
     rep.stage('oracle:property-on-real-objects', projects=len(oprojects), failures_including_known_findings=nfail,
               violations=len(rep.violations) - v0)
-    sbad, sdis = stage_system(rep, rng, fixed, (120 if thorough else 11) * (2 if (dis or dis2) else 1))
+    if dis or dis2 or len(rep.violations) > v0:
+        sysprojs = sysprojs + [gen_project(rng, None, system=True, max_libs=6) for _ in range(nsys)]
+    sbad, sdis = stage_system(rep, rng, fixed, sysprojs, None if thorough else 7)
     found = len(rep.violations) - v0
     if sdis and not found:
         p, x = sdis[0]
@@ -937,6 +1338,9 @@ def run_check(rep, thorough):
                  'make -n %r, model %r' % (len(sdis), x[0], x[2], x[3]),
                  {'obligation': 'system:link-line == model', 'project': p.to_json(), 'detail': repr(x)[:2000]},
                  found_input=False)
+    rep.stage('law:strings-kept-with-multiplicity', holds=not getattr(rep, 'c14_law', None))
+    if getattr(rep, 'c14_law', None) and not found:
+        rep.fail(rep.c14_law[0], rep.c14_law[1], found_input=False)
     for d, what in ((dis, 'W:link'), (dis2, 'W:rpath')):
         if d and not found:
             i, call, iv, mv = d[0]
@@ -960,8 +1364,11 @@ def replay(rep, path):
     fixed, _ = detect_fixed()
     fixed = True if fixed is None else fixed
     n = oracle_project(rep, proj, fixed)
-    if r.get('kind', '').startswith(('run', 'build', 'order', 'configure')) and all(
-            not nd.pkgs and all(t == 0 for t, _ in nd.lopts) for nd in proj.nodes):
+    if getattr(rep, 'c14_law', None) and not n:
+        rep.fail(rep.c14_law[0], rep.c14_law[1], found_input=False)
+        n += 1
+    if (r.get('kind', '').startswith(('run', 'build', 'order', 'configure', 'option')) or
+            any(nd.feat for nd in proj.nodes)) and all(nd.system_ok() for nd in proj.nodes):
         b, _ = system_project(rep, proj, fixed)
         n += b
     rep.stage('replay', failures=n)
